@@ -46,7 +46,7 @@ func gen(t *rapid.T) Case {
 			s.Op = "init"
 		}
 		s.MP = rapid.IntRange(0, nMP-1).Draw(t, "mp")
-		s.Lab = rapid.IntRange(0, 2).Draw(t, "lab")
+		s.Lab = rapid.IntRange(0, 5).Draw(t, "lab")
 		s.Fail = rapid.IntRange(0, 4).Draw(t, "fail") == 0
 		if s.Op == "init" || s.Op == "resync" {
 			s.Cfg = rapid.SampledFrom([]string{"valid", "valid", "valid", "valid", "undecodable", "construct-fail"}).Draw(t, "cfg")
@@ -58,7 +58,19 @@ func gen(t *rapid.T) Case {
 }
 
 func labelsOf(i, mp int) map[string]string {
-	return map[string]string{"containerd.io/snapshot/remote/stargz.reference": fmt.Sprintf("reg.example/img%d:latest", mp), "verif.labelset": fmt.Sprint(i)}
+	// label sets differ in their keys, not only in their values (a layer may or may not carry the prefetch,
+	// URL and neighbouring-layers labels)
+	l := map[string]string{"containerd.io/snapshot/remote/stargz.reference": fmt.Sprintf("reg.example/img%d:latest", mp), "verif.labelset": fmt.Sprint(i)}
+	if i%2 == 1 {
+		l["containerd.io/snapshot/remote/stargz.prefetch"] = fmt.Sprint(1000 + i)
+	}
+	if i%3 == 0 {
+		l["containerd.io/snapshot/remote/urls"] = fmt.Sprintf("https://mirror%d.example/blob", i)
+	}
+	if (i+mp)%4 == 0 {
+		l["containerd.io/snapshot/remote/stargz.layers"] = fmt.Sprintf("sha256:%064x", i+mp)
+	}
+	return l
 }
 
 type storeRec struct {
